@@ -374,3 +374,16 @@ package writer
 //@   ensures [timestamp-buffered] ss.wipBlock.blockTs[old(ss.wipBlock.blockSummary.RecCount)] == recordTimeMS && ss.wipBlock.blockSummary.RecCount == old(ss.wipBlock.blockSummary.RecCount)
 //@   ensures [block-invariant-for-the-new-record] wipTsInv(ss.wipBlock, int(ss.wipBlock.blockSummary.RecCount) + 1)
 //@ end
+
+// C01 (no value migrates to another column): the array flattener names the
+// k-th element of an array <key>.<k>.  The element callback advances the
+// captured index exactly once per element on every path that stores the
+// element (so that no two elements of an array can share a column name).
+// The index is a local of the enclosing function captured by reference; that
+// the calls made by the callback do not reach it is the `privatecaptures`
+// assumption (they receive neither the variable nor the closure).
+//@ func parseNonJaegerRawJsonArray$1
+//@   props C01
+//@   privatecaptures
+//@   ensures [index-advanced-once-per-element] implies(*finalErr == nil, *i == old(*i) + 1)
+//@ end
